@@ -354,3 +354,44 @@ Theorem tar_roundtrip c f dir D t :
     (forall k, is_prefix D k = false -> lookup f' k = lookup f k).
 Proof. intros Hwf Hd HD Hr. now apply (tar_roundtrip_in_section c f dir D Hd HD Hr). Qed.
 
+
+(** ** The name that is checked is the name that is written *)
+
+Lemma unzip_entry_is_rw_id c f dir e : unzip_entry c f dir e = unzip_entry_rw (fun n => n) c f dir e.
+Proof. unfold unzip_entry, unzip_entry_rw, write_zip_entry. destruct (e_kind e); reflexivity. Qed.
+
+(** A rewriting of the name between test and use is harmless exactly when
+    the rewritten name would pass the test as well. *)
+Definition rw_safe (dir : str) (rw : str -> str) : Prop :=
+  forall n, in_dir dir (filepath_join [dir; n]) = true -> in_dir dir (filepath_join [dir; rw n]) = true.
+
+Definition rename_entry (rw : str -> str) (e : entry) : entry :=
+  {| e_name := rw (e_name e); e_kind := e_kind e; e_perm := e_perm e; e_data := e_data e |}.
+
+Lemma unzip_entry_rw_confined rw c f dir e D r f' :
+  rw_safe dir rw ->
+  resolve (cwd c) (clean dir) = Some D ->
+  unzip_entry_rw rw c f dir e = (r, f') -> confined D f f'.
+Proof.
+  intros Hs HD. unfold unzip_entry_rw.
+  destruct (in_dir dir (filepath_join [dir; e_name e])) eqn:Hin; cbn [negb].
+  2:{ intros [= _ <-]. apply confined_refl. }
+  intros E. apply (unzip_entry_confined c f dir (rename_entry rw e) D r f' HD).
+  unfold unzip_entry. cbn [rename_entry e_name e_kind e_perm e_data].
+  rewrite (Hs _ Hin). cbn [negb]. rewrite <- E. unfold write_zip_entry.
+  destruct (e_kind e); reflexivity.
+Qed.
+
+Theorem unzip_entries_rw_confined rw c dir D es :
+  rw_safe dir rw ->
+  resolve (cwd c) (clean dir) = Some D ->
+  forall f, confined D f (snd (unzip_entries_rw rw c f dir es)).
+Proof.
+  intros Hs HD. induction es as [|e es IH]; intros f; cbn [unzip_entries_rw]; [apply confined_refl|].
+  destruct (unzip_entry_rw rw c f dir e) as [[r|] f1] eqn:E.
+  - cbn [snd]. eapply unzip_entry_rw_confined; eauto.
+  - eapply confined_trans; [eapply unzip_entry_rw_confined; eauto|apply IH].
+Qed.
+
+Lemma rw_safe_id dir : rw_safe dir (fun n => n).
+Proof. intros n H. exact H. Qed.
